@@ -384,7 +384,7 @@ pub proof fn lemma_remove_frame(cur: St, s0: St, a: PathV, q: PathV)
                             old_paths = paths@;
                         }
 //@ endins
-//@ ins before ⟦if let Some(parent) = guard.get_entry_mut(&path.dir()?) {⟧
+//@ ins before#1 re⟦if let Some\((?:parent|dir)\) = (?:guard\.get_entry_mut\(|path\.parent\(\))⟧
             proof {
                 assert(!has_kids(cur, q)) by {
                     assert(entry_ok(cur, q));
